@@ -350,26 +350,46 @@ def broadcast(ctx):
               and isinstance(n.value.func, ast.Attribute) and n.value.func.attr == '__stars__']
     ctx.require(len(layers) == 1, '_apply_for_each: star count not found')
     lv = layers[0].targets[0].id
-    top = [n for n in u.node.body if isinstance(n, ast.If) and is_name(n.test, lv)]
-    ctx.ob(len(top) == 1, u, 'wildcard paths are broadcast, others applied once')
-    if top:
-        t = top[0]
-        ok = len(t.orelse) == 1 and norm(t.orelse[0]) == '%s(%s)' % (func, val)
-        ctx.ob(ok, u, 'without wildcards the operation is applied to the single destination: %s' % [norm(s) for s in t.orelse])
-        loops = [n for n in t.body if isinstance(n, ast.For)]
+    cfg = ctx.cfg(u)
+    nonexc = lambda lab: lab != 'exc'
+    tests = []
+    for n in cfg.nodes:
+        if n.kind == 'test':
+            if is_name(n.ast, lv):
+                tests.append((n, 'true', 'false'))
+            elif isinstance(n.ast, ast.UnaryOp) and isinstance(n.ast.op, ast.Not) and is_name(n.ast.operand, lv):
+                tests.append((n, 'false', 'true'))
+    ctx.ob(len(tests) == 1, u, 'wildcard paths are broadcast, others applied once')
+    if len(tests) == 1:
+        t, starred, plain = tests[0]
+        on = lambda e: (lambda lab: lab == e)
+        r_plain = cfg.reachable(t, labels=nonexc, start_labels=on(plain))
+        r_star = cfg.reachable(t, labels=nonexc, start_labels=on(starred))
+        direct = [n for n in cfg.nodes if n.kind == 'stmt' and matches(n.ast, '%s(%s)' % (func, val))]
+        only_plain = [n for n in r_plain if n not in r_star and n.kind in ('stmt', 'for', 'test')]
+        ok = len(direct) == 1 and direct[0] in r_plain and direct[0] not in r_star \
+            and all(n is direct[0] or isinstance(n.ast, (ast.Return, ast.Pass)) for n in only_plain)
+        ctx.ob(ok, u, 'without wildcards the operation is applied to the single destination: %s' % [norm(n.ast) for n in only_plain])
+        loops = [n for n in cfg.nodes if n.kind in ('for',) and n in r_star and n not in r_plain]
         ctx.ob(len(loops) == 2, u, 'flatten loop + apply loop')
         if len(loops) == 2:
-            fl, ap = loops
-            # flatten (layers - 1) times
-            try:
-                ok = isinstance(fl.iter, ast.Call) and is_name(fl.iter.func, 'range') and linear(fl.iter.args[0], {lv: (1, 0)}) == (1, -1)
-            except NotAffine:
-                ok = False
-            ctx.ob(ok, u, 'one flattening per wildcard beyond the first: %s' % norm(fl.iter))
-            ok = len(fl.body) == 1 and norm(fl.body[0]) == '%s = sum(%s, [])' % (val, val)
-            ctx.ob(ok, u, 'flattening concatenates into a new list (the fetched lists are not modified): %s' % [norm(s) for s in fl.body])
-            ok = is_name(ap.iter, val) and len(ap.body) == 1 and norm(ap.body[0]) == '%s(%s)' % (func, ap.target.id)
-            ctx.ob(ok, u, 'the operation is applied to every match in order: %s' % norm(ap))
+            fl = [n.ast for n in loops if isinstance(n.ast.iter, ast.Call) and is_name(n.ast.iter.func, 'range')]
+            ap = [n.ast for n in loops if n.ast not in fl]
+            ctx.ob(len(fl) == 1 and len(ap) == 1, u, 'one counted flatten loop and one loop over the matches')
+            if len(fl) == 1 and len(ap) == 1:
+                fl, ap = fl[0], ap[0]
+                # flatten (layers - 1) times
+                try:
+                    ok = len(fl.iter.args) == 1 and linear(fl.iter.args[0], {lv: (1, 0)}) == (1, -1)
+                except NotAffine:
+                    ok = False
+                ctx.ob(ok, u, 'one flattening per wildcard beyond the first: %s' % norm(fl.iter))
+                ok = len(fl.body) == 1 and norm(fl.body[0]) == '%s = sum(%s, [])' % (val, val)
+                ctx.ob(ok, u, 'flattening concatenates into a new list (the fetched lists are not modified): %s' % [norm(s) for s in fl.body])
+                ok = is_name(ap.iter, val) and len(ap.body) == 1 and is_name(ap.target) \
+                    and norm(ap.body[0]) == '%s(%s)' % (func, ap.target.id) \
+                    and cfg.dominates(cfg.node_of(fl), cfg.node_of(ap))
+                ctx.ob(ok, u, 'the operation is applied to every match in order, after flattening: %s' % norm(ap))
     ctx.floor(5)
 
 
